@@ -283,7 +283,8 @@ func (e *Engine) findByteKey(s *State, b ByteV) string {
 	if _, ok := s.masks[k]; ok {
 		return k
 	}
-	for k2, m := range s.masks {
+	for _, k2 := range sortedMaskKeys(s) {
+		m := s.masks[k2]
 		if m.Root == b.Root && e.proveEQ(s, m.Idx, b.Idx) {
 			return k2
 		}
@@ -295,10 +296,24 @@ func (e *Engine) mask(s *State, b ByteV) Mask {
 	if b.Root < 0 {
 		return maskOf(b.C & 0xff)
 	}
-	if m, ok := s.masks[e.findByteKey(s, b)]; ok {
-		return m.M
+	// intersect every recorded fact about this byte: the exact key and all
+	// entries whose index is provably the same
+	out := fullMask()
+	k := b.bkey()
+	if m, ok := s.masks[k]; ok {
+		out = m.M
 	}
-	return fullMask()
+	defer func(t string) { e.LP.Tag = t }(e.LP.Tag)
+	e.LP.Tag = "bytekey"
+	for k2, m := range s.masks {
+		if k2 == k || m.Root != b.Root {
+			continue
+		}
+		if e.proveEQ(s, m.Idx, b.Idx) {
+			out = out.and(m.M)
+		}
+	}
+	return out
 }
 
 func (e *Engine) setMask(s *State, b ByteV, m Mask) {
